@@ -167,7 +167,15 @@ func equalVal(a, b Val) bool {
 		}
 		return true
 	case KFunc:
-		return a.Fn == b.Fn
+		if a.Fn != b.Fn || len(a.Elems) != len(b.Elems) {
+			return false
+		}
+		for i := range a.Elems {
+			if !equalVal(a.Elems[i], b.Elems[i]) {
+				return false
+			}
+		}
+		return true
 	case KTop:
 		return a.Dep == b.Dep
 	case KAgg:
@@ -203,6 +211,14 @@ func join(a, b Val) Val {
 	}
 	if a.K == KSlice && b.K == KSlice && a.S == b.S && a.Off == b.Off {
 		return Val{K: KSlice, S: a.S, Len: -1, Off: a.Off}
+	}
+	// nil or a slice over a known store: that slice, of unknown length (a nil
+	// slice has no elements to read, and a comparison with nil stays unknown)
+	if a.K == KNil && b.K == KSlice {
+		return Val{K: KSlice, S: b.S, Len: -1, Off: b.Off, Dep: a.Dep || b.Dep}
+	}
+	if b.K == KNil && a.K == KSlice {
+		return Val{K: KSlice, S: a.S, Len: -1, Off: a.Off, Dep: a.Dep || b.Dep}
 	}
 	if a.K == KIface && b.K == KIface && types.Identical(a.T, b.T) {
 		inner := join(*a.Inner, *b.Inner)
@@ -306,7 +322,12 @@ func (fr *frame) eval1(v ssa.Value) Val {
 		return Val{K: KPtr, S: fr.siteName(x)}
 	case *ssa.MakeClosure:
 		if f, ok := x.Fn.(*ssa.Function); ok {
-			return Val{K: KFunc, Fn: f}
+			// a closure carries the values of the variables it captured
+			fv := Val{K: KFunc, Fn: f}
+			for _, b := range x.Bindings {
+				fv.Elems = append(fv.Elems, fr.eval(b))
+			}
+			return fv
 		}
 		return top
 	case *ssa.MakeChan:
@@ -484,7 +505,14 @@ func (fr *frame) eval1(v ssa.Value) Val {
 			return Val{K: KPtr, S: "g:strconv." + x.Name()}
 		}
 		return top
-	case *ssa.FreeVar, *ssa.Builtin:
+	case *ssa.FreeVar:
+		for i, fv := range fr.fn.FreeVars {
+			if fv == x && i < len(fr.free) && fr.free[i].K != KBot {
+				return fr.free[i]
+			}
+		}
+		return top
+	case *ssa.Builtin:
 		return top
 	}
 	return top
@@ -1002,8 +1030,8 @@ func (fr *frame) builtin(name string, c *ssa.Call, args []Val) Val {
 		case KStr:
 			return int64Val(int64(len(a.S)))
 		case KSlice:
-			if v, ok := fr.in.PathBind["len("+a.S+")"]; ok {
-				return v
+			if v, ok := fr.in.PathBind["len("+a.S+")"]; ok && a.Len < 0 && a.Off == 0 {
+				return v // the whole slice at that path (not a window of it)
 			}
 			if a.Len >= 0 {
 				return int64Val(int64(a.Len))
